@@ -97,3 +97,74 @@ func CalculateHash(marshalizer marshal.Marshalizer, hasher hashing.Hasher, objec
   ensures  fails-iff: (err != nil) == (isNil(marshalizer) || isNil(hasher) || marshalFails(marshalizer, object))
   assigns  nothing
 @*/
+
+// ---- C36: percentage of an amount (agent C). Library model for strconv/strings/math/big text functions: trusted ----------
+/*@
+// Texts: dots(s) = number of '.' characters; for dots(s) == 1, s == intPart(s) + "." + fracPart(s); for dots(s) == 0,
+// intPart(s) == s and fracPart(s) == "". isNumber(s): s is accepted by (*big.Int).SetString(s, 10); decVal(s): its value.
+spec fn dots(s string) int
+  axiom dots(s) >= 0
+spec fn intPart(s string) string
+  axiom dots(s) == 0 ==> intPart(s) == s
+spec fn fracPart(s string) string
+  axiom dots(s) == 0 ==> fracPart(s) == ""
+spec fn isNumber(s string) bool
+spec fn decVal(s string) int
+spec fn pow10(n int) int
+  axiom pow10(n) >= 1
+  axiom pow10(0) == 1
+
+// fmtF(p): strconv.FormatFloat(p, 'f', -1, 64), the shortest decimal text that reads back as p. For 0 <= p <= 1 it is
+// "0", "1" or "0.d1..dk": at most one dot, and integer part followed by fraction part is a number between 0 and 10^k
+// (validated against strconv by the bounded stand-in C36_libmodel_test.go)
+spec fn fmtF(p float64) string
+
+extern func strconv.FormatFloat(f float64, fmt byte, prec int, bitSize int) (r string)
+  assigns nothing
+  ensures fmt == 102 && prec == -1 && bitSize == 64 ==> r == fmtF(f)
+  ensures unit-interval-texts: fmt == 102 && prec == -1 && bitSize == 64 && 0.0 <= f && f <= 1.0 ==> dots(r) <= 1 && isNumber(concat(intPart(r), fracPart(r))) && 0 <= decVal(concat(intPart(r), fracPart(r))) && decVal(concat(intPart(r), fracPart(r))) <= pow10(len(fracPart(r)))
+
+extern func strings.Split(s string, sep string) (r []string)
+  assigns nothing
+  ensures sep == "." ==> len(r) == dots(s) + 1
+  ensures sep == "." && dots(s) == 0 ==> r[0] == s
+  ensures sep == "." && dots(s) == 1 ==> r[0] == intPart(s) && r[1] == fracPart(s)
+
+// "1" followed by count zeros reads 10^count
+extern func strings.Repeat(s string, count int) (r string)
+  assigns nothing
+  ensures s == "0" && count >= 0 ==> len(r) == count && isNumber(concat("1", r)) && decVal(concat("1", r)) == pow10(count)
+
+extern func (z *big.Int) SetString(s string, base int) (r *big.Int, ok bool)
+  assigns big(z)
+  ensures base == 10 ==> (ok <==> isNumber(s))
+  ensures ok ==> r == z && big(z) == decVal(s)
+  ensures !ok ==> r == nil
+
+// the decimal reading of a percentage: pctNum(p) / pctDen(p)
+spec fn pctNum(p float64) int = decVal(concat(intPart(fmtF(p)), fracPart(fmtF(p))))
+spec fn pctDen(p float64) int = pow10(len(fracPart(fmtF(p))))
+
+func splitExponentFraction(val string) (exp string, fra string)
+  ensures  integer-and-fraction-text: dots(val) <= 1 ==> exp == intPart(val) && fra == fracPart(val)
+  ensures  other-texts-unsplit: dots(val) != 1 ==> exp == val && fra == ""
+  assigns  nothing
+
+func GetIntTrimmedPercentageOfValue(value *big.Int, percentage float64) (r *big.Int)
+  requires value != nil
+  requires percentage-in-unit-interval: 0.0 <= percentage && percentage <= 1.0
+  ensures  fresh(r)
+  ensures  input-not-modified: big(value) == old(big(value))
+  // r == floor(value * pctNum / pctDen), stated without division (lighter for the callers' proofs)
+  ensures  product-rounded-down: big(value) >= 0 ==> big(r) * pctDen(percentage) <= big(value) * pctNum(percentage) && big(value) * pctNum(percentage) < (big(r) + 1) * pctDen(percentage)
+  ensures  at-least-zero: big(value) >= 0 ==> big(r) >= 0
+  ensures  at-most-the-amount: big(value) >= 0 ==> big(r) <= big(value)
+  assigns  nothing
+
+// big.Float arithmetic (pre-staking-v2 percentage): not modelled, the result is unconstrained
+func GetApproximatePercentageOfValue(value *big.Int, percentage float64) (r *big.Int)
+  trusted
+  requires value != nil
+  ensures  r != nil && fresh(r)
+  assigns  nothing
+@*/
